@@ -223,8 +223,13 @@ def c06_sessions(V, tier):
     return len(jobs)
 
 
-def c07_sessions(V, tier):
-    cfg = "History_c07_quick.cfg" if tier == "quick" else "History_c07_thorough.cfg"
+def c07_sessions(V, tier, family="main"):
+    """family "main": conftest / helper / test (History_c07_*); "chain": two conftests sharing a re-exporting module, two test
+    files (History_c07chain_*) -- there a name is defined in several files, so anything that re-registers a file's definitions
+    (for instance a hidden re-analysis when a document is closed) changes order-dependent answers for OTHER documents"""
+    cfg = {"main": "History_c07_%s.cfg", "chain": "History_c07chain_%s.cfg"}[family] % tier
+    mk_uni = {"main": H.mk_universe, "chain": H.mk_universe2}[family]
+    test_files = {"main": ("t",), "chain": ("t0", "t1")}[family]
     meta = C.run_tlc("History", cfg, workers=12, timeout=7200)
     if not meta["ok"]:
         raise C.ToolError("TLC on History/%s failed" % cfg)
@@ -240,19 +245,19 @@ def c07_sessions(V, tier):
         hist = case["hist"]
         if any(e["t"] not in ("edit", "avail", "goto", "close") for e in hist) or not any(e["t"] in ("close", "avail", "goto") for e in hist[:-1]):
             continue
-        if any(e["t"] == "avail" and e["f"] != "t" for e in hist):
+        if any(e["t"] == "avail" and e["f"] not in test_files for e in hist):
             continue
         if any(e["t"] == "edit" and not table[e["f"]][e["v"] - 1]["valid"] for e in hist):
             continue
         cases.append(case)
     rnd = random.Random(C.seed() + 707)
     rnd.shuffle(cases)
-    cases = cases[:90 if tier == "quick" else 1200]
-    base = os.path.join(C.BUILD, "ws", "lsphist7-%d" % os.getpid())
+    cases = cases[:(90 if family == "main" else 60) if tier == "quick" else 1200]
+    base = os.path.join(C.BUILD, "ws", "lsphist7%s-%d" % (family, os.getpid()))
     shutil.rmtree(base, ignore_errors=True)
 
     def run_one(root, hist, cold, prologue=False):
-        uni = H.mk_universe(root)
+        uni = mk_uni(root)
         vt = H.Versions(uni, table)
         disk_r = {s: R.render_checked(uni, s, m) for s, m in disk.items()}
         _write_disk(root, uni.paths, {s: r.text for s, r in disk_r.items()})
